@@ -5,7 +5,7 @@ Bounded-exhaustive enumeration on a sphere lattice (DESIGN.md section 3, C18).  
   angles  angles_to_x / x_to_angles: every lattice direction (incl. both poles, RA outside [0, 360), directions
           10^k micro-arcsec from a pole) in both angle conventions, both compositions
   gcirc   every base point of an RA/Dec grid (both poles, RA = 0 seam) x every nominal separation
-          {0, 10^k micro-arcsec, 180 deg} x 8 position angles x 3 unit conventions, both argument orders,
+          {0, 10^k micro-arcsec, 180 deg - 10^k micro-arcsec, 180 deg} x 8 position angles x 3 unit conventions, both argument orders,
           array form (all) and scalar form (one position angle)
   munu    every stripe 0..89 x the grid x partner points at decade separations: ICRS -> SDSSMuNu -> ICRS
           through the astropy frame graph and through the two functions called directly; round trip, isometry,
@@ -40,6 +40,8 @@ ASSUMPTIONS = [
     'symmetry of gcirc is demanded to the same tolerance as the value; zero for identical points is demanded exactly',
     'the great circle of a stripe is the circle through (RA 95, Dec 0) that reaches Dec = incl at RA 95 + 90 deg, with '
     'incl = stripe_to_incl(stripe) evaluated by the function the property names',
+    'array arguments (and the coordinate arrays of frames) must be bit-identical after every call and a second call on the '
+    'same array must return bit-identical results (otherwise x_to_angles(angles_to_x(a)) == a fails for the caller\'s own a)',
     'nothing is claimed between lattice points',
 ]
 
@@ -70,6 +72,16 @@ def sep(a, b):
     cy = a[..., 2] * b[..., 0] - a[..., 0] * b[..., 2]
     cz = a[..., 0] * b[..., 1] - a[..., 1] * b[..., 0]
     return np.arctan2(np.sqrt(cx * cx + cy * cy + cz * cz), (a * b).sum(axis=-1))
+
+
+def bits_differ(a, b):
+    """Element-wise (row-wise for 2-D) 'not bit-identical' for float64 arrays; NaN-safe."""
+    a = np.ascontiguousarray(a, dtype=np.float64)
+    b = np.ascontiguousarray(b, dtype=np.float64)
+    if a.shape != b.shape:
+        return np.ones(len(b) if b.ndim else 1, dtype=bool)
+    d = a.view(np.uint64) != b.view(np.uint64)
+    return d.reshape(len(d), -1).any(axis=1) if d.ndim else np.array([bool(d)])
 
 
 def cond(lat_deg):
@@ -104,13 +116,18 @@ def grid(nra, ndec):
 
 
 def sep_menu(kstep):
-    """Nominal separations: ('zero', 0), ('k', 10^k micro-arcsec) ..., ('antipode', pi)."""
+    """Nominal separations: ('zero', 0), ('1e<k>', 10^k micro-arcsec) ..., ('antipode', pi), ('180deg-1e<k>', ...)."""
     out = [('zero', 0.0)]
     k = 0.0
     while k <= 11.5 + 1e-9:
         out.append(('1e%g' % k, (10.0 ** k) * 1e-6 * ARCSEC))
         k += kstep
     out.append(('antipode', math.pi))
+    # mirrored ladder: 180 deg minus the same decades (the antipode of the point at separation 10^k micro-arcsec)
+    k = 0.0
+    while k <= 11.5 + 1e-9:
+        out.append(('180deg-1e%g' % k, (10.0 ** k) * 1e-6 * ARCSEC))
+        k += kstep
     return out
 
 
@@ -145,9 +162,16 @@ def gcirc_check(units, form, p1, p2, same):
     a1, d1 = gcirc_inputs(units, p1[:, 0], p1[:, 1])
     a2, d2 = gcirc_inputs(units, p2[:, 0], p2[:, 1])
     n = len(a1)
+    modified = repeat = None
     if form == 'array':
-        g12 = np.asarray(gcirc(a1, d1, a2, d2, units=units), dtype=np.float64)
-        g21 = np.asarray(gcirc(a2, d2, a1, d1, units=units), dtype=np.float64)
+        w = [np.array(v, dtype=np.float64, copy=True) for v in (a1, d1, a2, d2)]      # the caller's arrays
+        g12 = np.asarray(gcirc(w[0], w[1], w[2], w[3], units=units), dtype=np.float64)
+        modified = np.zeros(n, dtype=bool)
+        for orig, work in zip((a1, d1, a2, d2), w):
+            modified |= bits_differ(orig, work)
+        again = np.asarray(gcirc(w[0], w[1], w[2], w[3], units=units), dtype=np.float64)
+        repeat = bits_differ(g12, again) if again.shape == g12.shape else np.ones(n, dtype=bool)
+        g21 = np.asarray(gcirc(a2.copy(), d2.copy(), a1.copy(), d1.copy(), units=units), dtype=np.float64)
     else:
         g12 = np.array([gcirc(float(a1[i]), float(d1[i]), float(a2[i]), float(d2[i]), units=units) for i in range(n)],
                        dtype=np.float64)
@@ -169,35 +193,54 @@ def gcirc_check(units, form, p1, p2, same):
     res.append(('gcirc:value' + u, ok & ~same & (np.abs(g12 - T) > tol)))
     res.append(('gcirc:symmetry' + u, ok & (np.abs(g12 - g21) > tol)))
     res.append(('gcirc:identical-points-not-zero' + u, ok & same & ((g12 != 0) | (g21 != 0))))
+    if modified is not None:
+        res.append(('gcirc:input-modified' + u, modified))
+        res.append(('gcirc:repeat-call-differs' + u, repeat & ~modified))
     msgs = (g12, g21, T)
     return [(s, m, msgs) for s, m in res if m.any()], g12 / scale
 
 
 # ------------------------------------------------------------------------------------------ munu
-def _transform(stripe, route, form, ra, dec, direction='icrs->munu'):
+def _snap(fr):
+    return np.array(fr.data.lon.value, dtype=np.float64, copy=True), np.array(fr.data.lat.value, dtype=np.float64, copy=True)
+
+
+def _frame_bits_differ(s0, s1):
+    return bits_differ(np.atleast_1d(s0[0]), np.atleast_1d(s1[0])) | bits_differ(np.atleast_1d(s0[1]), np.atleast_1d(s1[1]))
+
+
+def _transform(stripe, route, form, ra, dec, direction='icrs->munu', side=None):
     """direction 'icrs->munu': -> mu, nu, ra_back, dec_back; 'munu->icrs': input is (mu, nu) -> ra, dec, mu_back, nu_back
     (float64 arrays, degrees)."""
     import astropy.coordinates as ac
     import astropy.units as u
     from pydl.pydlutils.coord import SDSSMuNu, munu_to_radec, radec_to_munu
 
+    def to_munu(fr):
+        return fr.transform_to(SDSSMuNu(stripe=stripe)) if route == 'graph' else radec_to_munu(fr, SDSSMuNu(stripe=stripe))
+
+    def to_icrs(fr):
+        return fr.transform_to(ac.ICRS()) if route == 'graph' else munu_to_radec(fr, ac.ICRS())
+
+    def step(name, f, fr):
+        """Apply f to frame fr; record whether fr's coordinate arrays changed and whether a second call agrees."""
+        if side is None:
+            return f(fr)
+        s0 = _snap(fr)
+        out = f(fr)
+        side[name + ':input-modified'] = _frame_bits_differ(s0, _snap(fr))
+        side[name + ':repeat-call-differs'] = _frame_bits_differ(_snap(out), _snap(f(fr)))
+        return out
+
     def one(r, d):
         if direction == 'munu->icrs':
             m = SDSSMuNu(mu=r * u.deg, nu=d * u.deg, stripe=stripe)
-            if route == 'graph':
-                b = m.transform_to(ac.ICRS())
-                m2 = b.transform_to(SDSSMuNu(stripe=stripe))
-            else:
-                b = munu_to_radec(m, ac.ICRS())
-                m2 = radec_to_munu(b, SDSSMuNu(stripe=stripe))
+            b = step('munu_to_radec', to_icrs, m)
+            m2 = step('radec_to_munu', to_munu, b)
             return b.ra.deg, b.dec.deg, m2.mu.deg, m2.nu.deg
         icrs = ac.ICRS(ra=r * u.deg, dec=d * u.deg)
-        if route == 'graph':
-            m = icrs.transform_to(SDSSMuNu(stripe=stripe))
-            b = m.transform_to(ac.ICRS())
-        else:
-            m = radec_to_munu(icrs, SDSSMuNu(stripe=stripe))
-            b = munu_to_radec(m, ac.ICRS())
+        m = step('radec_to_munu', to_munu, icrs)
+        b = step('munu_to_radec', to_icrs, m)
         return m.mu.deg, m.nu.deg, b.ra.deg, b.dec.deg
     if form == 'array':
         r = one(np.asarray(ra, dtype=np.float64), np.asarray(dec, dtype=np.float64))
@@ -243,7 +286,8 @@ def munu_points_check(stripe, route, form, P, pairs, triples, direction='icrs->m
     first, second = ('radec_to_munu', 'munu_to_radec') if direction == 'icrs->munu' else ('munu_to_radec', 'radec_to_munu')
     dtag = '' if direction == 'icrs->munu' else ':munu->icrs'
     try:
-        mu, nu, rb, db = _transform(stripe, route, form, P[:, 0], P[:, 1], direction)
+        side = {} if form == 'array' else None
+        mu, nu, rb, db = _transform(stripe, route, form, P[:, 0], P[:, 1], direction, side)
     except Exception as e:  # noqa: BLE001
         return [('munu:exception:%s:%s' % (type(e).__name__, route), 'all', np.array([0]), repr(e))], None
     pole = np.abs(P[:, 1]) > 90.0 - 1.0e-6       # within 3.6 mas of a celestial pole: sin(dec) can round to 1
@@ -268,6 +312,13 @@ def munu_points_check(stripe, route, form, P, pairs, triples, direction='icrs->m
                 if mm.any():
                     out.append(('munu:nan:%s%s%s' % (name, tag, dtag), 'point', np.nonzero(mm)[0],
                                 'NaN in the result of %s' % name))
+    for name, m in sorted((side or {}).items()):
+        if name.endswith('repeat-call-differs'):
+            m = m & ~side[name.replace('repeat-call-differs', 'input-modified')]
+        if m.any():
+            out.append(('munu:%s:%s%s' % (name, route, dtag), 'point', np.nonzero(m)[0],
+                        'frame coordinates changed by the call' if name.endswith('modified') else
+                        'second call on the same frame returns different coordinates'))
     good = ~(nan_f | nan_b)
     vP = vec(P[:, 0], P[:, 1])
     vM = vec(mu, nu)
@@ -351,9 +402,30 @@ def angles_check(latitude, A):
     out = []
     A = np.asarray(A, dtype=np.float64)
     lat = A[:, 1] if latitude else 90.0 - A[:, 1]
+    lt = ':latitude=%s' % latitude
     try:
-        X = mng.angles_to_x(A.copy(), latitude=latitude)
-        B = mng.x_to_angles(X.copy(), latitude=latitude)
+        WA = A.copy()                                   # the caller's angle array
+        X = mng.angles_to_x(WA, latitude=latitude)
+        modA = bits_differ(A, WA)
+        if modA.any():
+            out.append(('angles_to_x:input-modified' + lt, np.nonzero(modA)[0],
+                        'caller array %s became %s' % (A[modA][0].tolist(), WA[modA][0].tolist())))
+            X = mng.angles_to_x(A.copy(), latitude=latitude)
+        else:
+            rep = bits_differ(X, mng.angles_to_x(WA, latitude=latitude))
+            if rep.any():
+                out.append(('angles_to_x:repeat-call-differs' + lt, np.nonzero(rep)[0], 'second call on the same array'))
+        WX = X.copy()                                   # the caller's vector array
+        B = mng.x_to_angles(WX, latitude=latitude)
+        modX = bits_differ(X, WX)
+        if modX.any():
+            out.append(('x_to_angles:input-modified' + lt, np.nonzero(modX)[0],
+                        'caller array %s became %s' % (X[modX][0].tolist(), WX[modX][0].tolist())))
+            B = mng.x_to_angles(X.copy(), latitude=latitude)
+        else:
+            rep = bits_differ(B, mng.x_to_angles(WX, latitude=latitude))
+            if rep.any():
+                out.append(('x_to_angles:repeat-call-differs' + lt, np.nonzero(rep)[0], 'second call on the same array'))
         X2 = mng.angles_to_x(B.copy(), latitude=latitude)
     except Exception as e:  # noqa: BLE001
         return [('angles:exception:%s' % type(e).__name__, np.array([0]), repr(e))]
@@ -421,6 +493,9 @@ def gcirc_pairs(col, nra, ndec, kstep, npa):
                     q = (ra, dec)
                 elif name == 'antipode':
                     q = ((ra + 180.0) % 360.0, -dec)
+                elif name.startswith('180deg-'):
+                    q = destination(ra, dec, s, pa)
+                    q = ((q[0] + 180.0) % 360.0, -q[1])
                 else:
                     q = destination(ra, dec, s, pa)
                 P1.append((ra, dec))
